@@ -381,8 +381,9 @@ Definition run_scenario (inputs : list (bool * list Z * nat)) (ops : list op) : 
   run_ops {| cs_ins := map (fun skm => init_input (fst (fst skm)) (snd (fst skm)) (snd skm)) inputs;
              cs_epochs := repeat 0%Z (length inputs) |} ops.
 
-(* ---------- sign_then_verify, as a statement (its general proof is not part of this development; the cases
-   proved are Proofs/SignPlace.v: sign_fresh_in_order / sign_fresh_then_verify) ----------
+(* ---------- sign_then_verify, as a statement (proved in Proofs/SignPlaceSeq.v: sign_then_verify_thm; the general
+   form with replace_signatures, fail_on_unknown_key and verifications between the calls is Model/SignSeq.v +
+   Properties/C02.v sign_history_then_verify) ----------
    Any sequence of sign() calls without replace_signatures on an input with pairwise distinct keys, where a
    key's own signature verifies and verifies for no other listed key: the input verifies exactly when at least
    m distinct listed keys were among the signers. *)
